@@ -87,6 +87,8 @@ Obligation(a) ==
     \/ op[a].st = "called" /\ op[a].kind = "join" /\ (hs[op[a].h] # "joinable" \/ Finished(op[a].h))
     \/ op[a].st = "called" /\ op[a].kind = "destroy_j"
           /\ (hs[op[a].h] # "joinable" \/ ~stopReq[op[a].h] \/ Finished(op[a].h))
-QuiescentOk == \A a \in Actor : ~Obligation(a)
+QuiescentOk == /\ \A a \in Actor : ~Obligation(a)
+               \* an accepted exit callback of a finished thread is owed
+               /\ \A h \in H : body[h] = "finished" => cbRan[h] = cbReg[h]
 JoinMeansDone == \A h \in H : hs[h] = "done" => TRUE
 =============================================================================
